@@ -806,10 +806,29 @@ class RGraph:
             for iid in rbuild.rcommits.keys()
         }
 
+        # commits reachable from the head of this branch are merged even if
+        # they are listed in builds of previous branches only
+        reachable_iids = set()
+        rcommits_to_visit = list(result_accumdata.rc_parents)
+        while rcommits_to_visit:
+            rcommit = rcommits_to_visit.pop()
+            if rcommit.iid not in reachable_iids:
+                reachable_iids.add(rcommit.iid)
+                rcommits_to_visit.extend(rcommit.parents)
+
+        if prev_branch is not None:
+            # previous branch lists only those commits of still earlier
+            # branches, which it has not merged
+            all_commits_prev_branch.update(
+                (rcommit.iid, rcommit)
+                for rcommit in repo_cache.selected_commits.values())
+
         not_merged_rcommits = {
             iid: rcommit
             for iid, rcommit in all_commits_prev_branch.items()
-            if rcommit.is_explicit and iid not in all_commits_in_this_branch
+            if (rcommit.is_explicit
+                and iid not in all_commits_in_this_branch
+                and iid not in reachable_iids)
         }
 
         # Get info about latest build in current branch - it will be a parent build
